@@ -32,7 +32,9 @@ func init() {
 
 func c16Sets() []*sgen.Schema {
 	N, L, NN := sgen.N, sgen.L, sgen.NN
-	f := func(name string, t *sgen.T, args ...*sgen.Arg) *sgen.Field { return &sgen.Field{Name: name, Type: t, Args: args} }
+	f := func(name string, t *sgen.T, args ...*sgen.Arg) *sgen.Field {
+		return &sgen.Field{Name: name, Type: t, Args: args}
+	}
 	bases := sgen.Bases()
 	return []*sgen.Schema{
 		bases[2],
@@ -98,6 +100,14 @@ func c16Sets() []*sgen.Schema {
 			{Kind: sgen.KObject, Name: "Query", Extend: true, Fields: []*sgen.Field{f("e", N("E"))}},
 			{Kind: sgen.KEnum, Name: "E", Values: []*sgen.EnumVal{{Name: "X"}}},
 			{Kind: sgen.KEnum, Name: "E", Extend: true, Values: []*sgen.EnumVal{{Name: "Y"}}},
+		}},
+		// the extra scalars declared again (the root keeps its own): uses before and after the declaration mean the same scalar
+		{Defs: []*sgen.Def{
+			{Kind: sgen.KObject, Name: "Query", Fields: []*sgen.Field{f("at", N("Time")), f("n64", N("Int64")), f("e", N("Ev"))}},
+			{Kind: sgen.KScalar, Name: "Time"},
+			{Kind: sgen.KObject, Name: "Ev", Fields: []*sgen.Field{f("at", N("Time")), f("n64", NN(N("Int64")))}},
+			{Kind: sgen.KScalar, Name: "Int64"},
+			{Kind: sgen.KInput, Name: "When", Fields: []*sgen.Field{{Name: "at", Type: N("Time")}}},
 		}},
 		// a type and a directive of the same name (two name spaces): a use of the directive means the directive wherever the
 		// type of that name arrived
@@ -220,6 +230,12 @@ const introQuery = `{__schema{queryType{name kind fields{name}} mutationType{nam
 type c16Dummy struct{}
 
 func (c16Dummy) Resolve(field *ggql.Field, args map[string]interface{}) (interface{}, error) {
+	switch field.Name {
+	case "at": // a Time
+		return time.Date(2020, 4, 5, 6, 7, 8, 0, time.UTC), nil
+	case "n64": // an Int64
+		return int64(1) << 40, nil
+	}
 	return c16Dummy{}, nil
 }
 
@@ -350,6 +366,16 @@ func c16Load(units []sgen.Unit, arr arrangement, dirNames []string, wantIntro bo
 				}
 			}
 		}
+		// fields of the extra scalar types, answered with Go values of those types
+		for _, u := range units {
+			if u.Def != nil && u.Def.Kind == sgen.KObject && u.Def.Name == "Query" {
+				for _, f := range u.Def.Fields {
+					if b := f.Type.Base(); b == "Time" || b == "Int64" {
+						probes = append(probes, "{ "+f.Name+" }")
+					}
+				}
+			}
+		}
 		sort.Strings(probes)
 		for _, rq := range probes {
 			var r2 map[string]interface{}
@@ -461,6 +487,12 @@ func runC16(c *core.Ctx) {
 				if moves[i].target != moves[j].target || moves[i].what != moves[j].what || c.Thorough() {
 					combos = append(combos, []int{i, j})
 				}
+			}
+		}
+		// a pair of extend blocks in both orders (an interface before the field it asks for, and after)
+		for _, cb := range append([][]int{}, combos...) {
+			if len(cb) == 2 {
+				combos = append(combos, []int{cb[1], cb[0]})
 			}
 		}
 		for _, combo := range combos {
